@@ -1,5 +1,99 @@
+(* C26 - snaked grids are a continuous back-and-forth ordering of the full grid.
+   Model: Pure/Snake.v (snake_cyclers as coded: tile/repeat/concatenate/slice per axis, zipped;
+   no-snake shortcut = plain product).  All theorems: for every non-empty axis-length vector with
+   every length >= 1 and every flag vector of the same length (no bound on sizes).
+     point lens flags t = [idx lens flags 0 t; ...]   with
+     digit k t  = (t / R_k) mod L_k,   slower k t = t / (R_k * L_k),   R_k = product of the faster lengths,
+     idx k t    = L_k - 1 - digit k t  if axis k is snaked and slower k t is odd, else digit k t.       *)
 From BV Require Import Base.Prelude Pure.Snake Proofs.Snake.
+From Coq Require Import Permutation.
 
-Theorem C26_closed_form : forall A n (l : list A), length (tile n l) = n * length l.
-Proof. exact @length_tile. Qed.
+(* the call succeeds on every valid input *)
+Theorem C26_total : forall lens flags, valid_lens lens -> length flags = length lens ->
+  exists pts, snake_cyclers lens flags = Some pts.
+Proof. exact snake_total. Qed.
+Print Assumptions C26_total.
+
+(* (i) closed form of the whole trajectory *)
+Theorem C26_closed_form : forall lens flags pts,
+  valid_lens lens -> length flags = length lens -> snake_cyclers lens flags = Some pts ->
+  length pts = prodl lens /\
+  forall t, t < prodl lens ->
+    nth t pts [] = point lens flags t /\ length (nth t pts []) = length lens /\
+    forall k, k < length lens -> coord (nth t pts []) k = idx lens flags k t.
+Proof. exact out_closed_form. Qed.
 Print Assumptions C26_closed_form.
+
+(* (ii) the trajectory is a permutation of the full Cartesian product *)
+Theorem C26_permutation : forall lens flags pts,
+  valid_lens lens -> length flags = length lens -> snake_cyclers lens flags = Some pts ->
+  NoDup pts /\ Permutation pts (product lens) /\ (forall p, In p pts <-> In p (product lens)).
+Proof. exact out_permutation. Qed.
+Print Assumptions C26_permutation.
+
+(* (iii) unsnaked axes (and always the first axis) follow plain product order *)
+Theorem C26_unsnaked_product_order : forall lens flags pts,
+  valid_lens lens -> length flags = length lens -> snake_cyclers lens flags = Some pts ->
+  forall k, k < length lens -> (k = 0 \/ nth k flags false = false) ->
+  forall t, t < prodl lens ->
+    coord (nth t pts []) k = coord (nth t (product lens) []) k /\ coord (nth t pts []) k = digit lens k t.
+Proof. exact out_unsnaked. Qed.
+Print Assumptions C26_unsnaked_product_order.
+
+(* (iv-a) whenever a slower coordinate changes between t and t+1, a snaked axis below it keeps its
+   index and runs in the opposite direction afterwards *)
+Theorem C26_turnaround : forall lens flags pts,
+  valid_lens lens -> length flags = length lens -> snake_cyclers lens flags = Some pts ->
+  forall j k t, j < k < length lens -> t + 1 < prodl lens ->
+    coord (nth (t + 1) pts []) j <> coord (nth t pts []) j ->
+    nth k flags false = true ->
+    coord (nth (t + 1) pts []) k = coord (nth t pts []) k /\
+    Nat.odd (slower lens k (t + 1)) = negb (Nat.odd (slower lens k t)).
+Proof. exact out_turnaround. Qed.
+Print Assumptions C26_turnaround.
+
+(* (iv-b) every step: one axis j moves by exactly one; slower axes stay; faster snaked axes stay,
+   faster unsnaked axes wrap from L-1 to 0; so if all faster axes are snaked exactly one coordinate changes *)
+Theorem C26_continuity : forall lens flags pts,
+  valid_lens lens -> length flags = length lens -> snake_cyclers lens flags = Some pts ->
+  forall t, t + 1 < prodl lens ->
+  exists j, j < length lens /\
+    (forall i, i < j -> coord (nth (t + 1) pts []) i = coord (nth t pts []) i) /\
+    adj (coord (nth t pts []) j) (coord (nth (t + 1) pts []) j) /\
+    (forall i, j < i < length lens ->
+       if nth i flags false then coord (nth (t + 1) pts []) i = coord (nth t pts []) i
+       else coord (nth t pts []) i = nth i lens 0 - 1 /\ coord (nth (t + 1) pts []) i = 0) /\
+    ((forall i, j < i < length lens -> nth i flags false = true) ->
+       forall i, i < length lens -> i <> j -> coord (nth (t + 1) pts []) i = coord (nth t pts []) i).
+Proof. exact out_step. Qed.
+Print Assumptions C26_continuity.
+
+(* (v) the first flag makes no difference *)
+Theorem C26_first_flag_irrelevant : forall lens flags b b', valid_lens lens ->
+  snake_cyclers lens (b :: flags) = snake_cyclers lens (b' :: flags).
+Proof. exact first_flag_irrelevant. Qed.
+Print Assumptions C26_first_flag_irrelevant.
+
+(* ---- non-vacuity: a concrete 2 x 3 x 2 grid with both inner axes snaked *)
+Example C26_nonvacuous :
+  valid_lens [2; 3; 2] /\ length [false; true; true] = length [2; 3; 2] /\
+  snake_cyclers [2; 3; 2] [false; true; true] =
+    Some [[0;0;0]; [0;0;1]; [0;1;1]; [0;1;0]; [0;2;0]; [0;2;1];
+          [1;2;1]; [1;2;0]; [1;1;0]; [1;1;1]; [1;0;1]; [1;0;0]].
+Proof.
+  split; [split; [discriminate|repeat constructor]|]. split; [reflexivity|vm_compute; reflexivity].
+Qed.
+
+(* the hypotheses of C26_turnaround are met: between t=5 and t=6 axis 0 changes, axes 1 and 2 stay *)
+Example C26_turnaround_nonvacuous :
+  exists pts, snake_cyclers [2; 3; 2] [false; true; true] = Some pts /\
+    0 < 1 < 3 /\ 5 + 1 < prodl [2; 3; 2] /\
+    coord (nth (5 + 1) pts []) 0 <> coord (nth 5 pts []) 0 /\ nth 1 [false; true; true] false = true /\
+    coord (nth (5 + 1) pts []) 1 = coord (nth 5 pts []) 1.
+Proof. eexists. split; [vm_compute; reflexivity|]. vm_compute. repeat split; try lia; discriminate. Qed.
+
+(* a mixed case (middle axis unsnaked) where the unsnaked axis wraps: more than one coordinate changes *)
+Example C26_mixed_nonvacuous :
+  snake_cyclers [2; 2; 2] [false; false; true] =
+    Some [[0;0;0]; [0;0;1]; [0;1;1]; [0;1;0]; [1;0;0]; [1;0;1]; [1;1;1]; [1;1;0]].
+Proof. vm_compute. reflexivity. Qed.
